@@ -306,6 +306,19 @@ def check_main(
               t0 + (quick_s if tier == "quick" else thorough_s))
     ctx.rng = random.Random(f"{prop}:{seed}")
 
+    # hard stop: a check that hangs (e.g. the code under test deadlocks inside a harness leg without its
+    # own time limit) gives no verdict: exit code 2, never a silent hang
+    hard = float(os.environ.get("VERIF_HARD_LIMIT_S", "0") or 0) or (quick_s * 6 if tier == "quick" else thorough_s * 4)
+
+    def _watchdog() -> None:
+        time.sleep(hard)
+        print(f"{prop} check exceeded its hard time limit of {hard:.0f} s (no verdict)", file=sys.stderr, flush=True)
+        os._exit(2)
+
+    import threading as _threading
+
+    _threading.Thread(target=_watchdog, daemon=True, name="check-watchdog").start()
+
     violations_printed = 0
     known = known_findings()
     open_known = [k for k in known.get("open", []) if k.get("property") == prop]
